@@ -3,9 +3,10 @@
   the Go partial operations it performs:
 
   * `As*()` on a `Type` whose kind pointer is nil               → `.panic`
-  * `resolved.IsAnyOf(KindStruct, KindRef)` followed by `AsStruct()` — an object whose reference
-    chain ends in a *dangling* reference passes the test and then dereferences a nil `*StructType`
-                                                                 → `.panic "AsStruct"`
+  * (before /repo eed3e31: `resolved.IsAnyOf(KindStruct, KindRef)` followed by `AsStruct()` — an
+    object whose reference chain ends in a *dangling* reference passed the test and dereferenced a
+    nil `*StructType`; kept as `fromASTPreFix`. Now `if !resolvedType.IsStruct() { return }`: such an
+    object simply gets no builder.)
   * `WithTypeConstraints` indexes `constraint.Args[0]`           → `.panic` on an empty `Args`
   * `Schemas.ResolveToType` recurses through references without a visited set: an alias cycle is
     a Go stack overflow (fatal, not recoverable)                → `.err "diverge"` (fuel exhausted)
@@ -200,11 +201,25 @@ def structObjectToBuilder (ss : Schemas) (fuel : Nat) (s : Schema) (o : Obj) : O
   | .err e => .err e
   | .panic st => .panic st
 
+/-- the callback passed to `schema.Objects.Iterate`; `acceptRef` = the test as it was before /repo
+    eed3e31 (`IsAnyOf(KindStruct, KindRef)`), `false` = the current `IsStruct()` -/
+def objectBuilderWith (acceptRef : Bool) (ss : Schemas) (fuel : Nat) (s : Schema) (o : Obj) : Outcome (Option Builder) :=
+  match resolveO ss fuel o.ty with
+  | .ok r =>
+    if kindIs r "struct" || (acceptRef && kindIs r "ref") then
+      match structObjectToBuilder ss fuel s o with
+      | .ok b => .ok (some b)
+      | .err e => .err e
+      | .panic st => .panic st
+    else .ok none
+  | .err e => .err e
+  | .panic st => .panic st
+
 /-- the callback passed to `schema.Objects.Iterate` -/
 def objectBuilder (ss : Schemas) (fuel : Nat) (s : Schema) (o : Obj) : Outcome (Option Builder) :=
   match resolveO ss fuel o.ty with
   | .ok r =>
-    if kindIs r "struct" || kindIs r "ref" then
+    if kindIs r "struct" then
       match structObjectToBuilder ss fuel s o with
       | .ok b => .ok (some b)
       | .err e => .err e
@@ -239,5 +254,33 @@ def schemasBuilders (ss : Schemas) (fuel : Nat) : List Schema → Outcome (List 
 
 /-- `BuilderGenerator.FromAST` -/
 def fromAST (ss : Schemas) : Outcome Builders := schemasBuilders ss (fuelFor ss) ss
+
+/-! the derivation as it was before /repo eed3e31 (kept so that the former defect stays a checked statement) -/
+
+def objectsBuildersPreFix (ss : Schemas) (fuel : Nat) (s : Schema) : List (String × Obj) → Outcome (List Builder)
+  | [] => .ok []
+  | (_, o) :: rest =>
+    match objectBuilderWith true ss fuel s o with
+    | .ok ob =>
+      match objectsBuildersPreFix ss fuel s rest with
+      | .ok bs => .ok (match ob with | some b => b :: bs | none => bs)
+      | .err e => .err e
+      | .panic st => .panic st
+    | .err e => .err e
+    | .panic st => .panic st
+
+def schemasBuildersPreFix (ss : Schemas) (fuel : Nat) : List Schema → Outcome (List Builder)
+  | [] => .ok []
+  | s :: rest =>
+    match objectsBuildersPreFix ss fuel s s.objects with
+    | .ok bs =>
+      match schemasBuildersPreFix ss fuel rest with
+      | .ok bs' => .ok (bs ++ bs')
+      | .err e => .err e
+      | .panic st => .panic st
+    | .err e => .err e
+    | .panic st => .panic st
+
+def fromASTPreFix (ss : Schemas) : Outcome Builders := schemasBuildersPreFix ss (fuelFor ss) ss
 
 end Cog.Builder
